@@ -323,6 +323,8 @@ pub struct FdInfo {
     pub ftype: u32,
     pub cloexec: bool,
     pub getfl: i32,
+    #[serde(default)]
+    pub procfs: bool,
 }
 
 pub fn fd_table(limit: i32) -> Vec<FdInfo> {
@@ -333,7 +335,7 @@ pub fn fd_table(limit: i32) -> Vec<FdInfo> {
             continue;
         }
         if let Ok(st) = fstat(fd) {
-            v.push(FdInfo { fd, dev: st.id.dev, ino: st.id.ino, ftype: st.ftype(), cloexec: fdfl & libc::FD_CLOEXEC != 0, getfl: fcntl_getfl(fd) });
+            v.push(FdInfo { fd, dev: st.id.dev, ino: st.id.ino, ftype: st.ftype(), cloexec: fdfl & libc::FD_CLOEXEC != 0, getfl: fcntl_getfl(fd), procfs: fstatfs_type(fd) == Ok(PROC_SUPER_MAGIC) });
         }
     }
     v
